@@ -2507,15 +2507,15 @@ impl Interpreter {
                 compiled: None, // Will be lazily compiled on first use
             };
             obj.prototype = Some(self.regexp_prototype.clone());
-            obj.set_property(source_key, JsValue::String(JsString::from(pattern)));
-            obj.set_property(flags_key, JsValue::String(JsString::from(flags)));
-            obj.set_property(global_key, JsValue::Boolean(flags.contains('g')));
-            obj.set_property(ignore_case_key, JsValue::Boolean(flags.contains('i')));
-            obj.set_property(multiline_key, JsValue::Boolean(flags.contains('m')));
-            obj.set_property(dot_all_key, JsValue::Boolean(flags.contains('s')));
-            obj.set_property(unicode_key, JsValue::Boolean(flags.contains('u')));
-            obj.set_property(sticky_key, JsValue::Boolean(flags.contains('y')));
-            obj.set_property(last_index_key, JsValue::Number(0.0));
+            obj.define_builtin_property(source_key, JsValue::String(JsString::from(pattern)));
+            obj.define_builtin_property(flags_key, JsValue::String(JsString::from(flags)));
+            obj.define_builtin_property(global_key, JsValue::Boolean(flags.contains('g')));
+            obj.define_builtin_property(ignore_case_key, JsValue::Boolean(flags.contains('i')));
+            obj.define_builtin_property(multiline_key, JsValue::Boolean(flags.contains('m')));
+            obj.define_builtin_property(dot_all_key, JsValue::Boolean(flags.contains('s')));
+            obj.define_builtin_property(unicode_key, JsValue::Boolean(flags.contains('u')));
+            obj.define_builtin_property(sticky_key, JsValue::Boolean(flags.contains('y')));
+            obj.define_builtin_property(last_index_key, JsValue::Number(0.0));
         }
         regexp_obj
     }
